@@ -72,6 +72,13 @@ def conjuncts(e: ast.AST) -> list[ast.AST]:
         for v in e.values:
             out.extend(conjuncts(v))
         return out
+    if isinstance(e, ast.Compare) and len(e.ops) > 1:
+        # a == b == c  is  a == b and b == c  (the middle operand is evaluated once; the operands we meet are pure)
+        out, left = [], e.left
+        for op, right in zip(e.ops, e.comparators):
+            out.append(ast.copy_location(ast.Compare(left, [op], [right]), e))
+            left = right
+        return out
     return [e]
 
 
